@@ -337,7 +337,7 @@ def dry_then_real(st, tree, seps, flags, case, label, base_flags=("--no-fetch", 
         st.outcomes["violation"] += 1
         st.violation(f"C13:diff-not-a-valid-unified-diff:{label}", case, {"error": str(ex), "stdout": o_dry.stdout[:600]})
         return
-    want = {k: v.decode("utf-8") for k, v in after_real.items()}
+    want = {k: v.decode("utf-8", errors="surrogateescape") for k, v in after_real.items()}  # (a damaged file must be reported, not crash the check)
     wrong = sorted(k for k in set(patched) | set(want) if patched.get(k) != want.get(k))
     if wrong:
         st.outcomes["violation"] += 1
